@@ -9,7 +9,8 @@
     * `exeAsIs`, `exeClamped`: RungeKutta2/4::exe as it is (`while (t < end) increm();`) and with the
                               last step clamped (patches/C12-rk-exe.diff)
     * `ctlBody`, `ctlLoop`  : the step-size control loop of RungeKutta42/54::iterate, the error test
-                              and the time multiplier being oracles
+                              and the time multiplier being oracles; `ctlBodyFixed`, `ctlLoopFixed`:
+                              the same with patches/C12-rk-adaptive-final-time.diff
 -/
 namespace TfelVerif.C12
 
@@ -129,13 +130,31 @@ def ctlInit (zero ti tf dt : α) : Option (Ctl α) :=
   let d := if tf - ti < dt then tf - ti else dt
   if d < zero then none else some ⟨ti, d⟩
 
-/-- trace validation: may the loop-head state `s'` follow `s` after one pass through the body, for
-some outcome of the error test and some non-negative time multiplier? (`eq` is equality of scalars) -/
+/-- the loop body with patches/C12-rk-adaptive-final-time.diff: an accepted step whose size is the
+remaining interval lands on `tf` exactly, and when less than half a step remains the next step is
+the remaining interval (instead of leaving the loop) -/
+def ctlBodyFixed (tf half : α) (accept : Bool) (m : α) (s : Ctl α) : Ctl α :=
+  let t' := if accept then (if s.dt < tf - s.t then s.t + s.dt else tf) else s.t
+  if t' < tf - half * s.dt then
+    let d := s.dt * m
+    ⟨t', if tf - t' < d then tf - t' else d⟩
+  else if t' < tf then ⟨t', tf - t'⟩
+  else ⟨t', s.dt⟩
+
+def ctlLoopFixed (tf half : α) : List (Bool × α) → Ctl α → Ctl α × Bool
+  | [], s => (s, !(decide (s.t < tf - half * s.dt)))
+  | o :: os, s =>
+    if s.t < tf - half * s.dt then ctlLoopFixed tf half os (ctlBodyFixed tf half o.1 o.2 s)
+    else (s, true)
+
+/-- trace validation: may the loop-head state `s'` follow `s` after one pass through the body (of
+the code as it is, or of the repaired code), for some outcome of the error test and some
+non-negative time multiplier? (`eq` is equality of scalars) -/
 def ctlStepOk (eq : α → α → Bool) (zero tf half : α) (s s' : Ctl α) : Bool :=
-  (eq s'.t (s.t + s.dt) || eq s'.t s.t) &&
+  (eq s'.t (s.t + s.dt) || eq s'.t s.t || (!(decide (s.dt < tf - s.t)) && eq s'.t tf)) &&
   (if s'.t < tf - half * s.dt then
      !(decide (s'.dt < zero)) && !(decide (tf - s'.t < s'.dt)) && (!(eq s.dt zero) || eq s'.dt zero)
-   else eq s'.dt s.dt)
+   else eq s'.dt s.dt || (decide (s'.t < tf) && eq s'.dt (tf - s'.t)))
 
 /-- a recorded sequence of loop-head states followed by the final state is a terminated run of
 `ctlLoop`: the guard holds at every recorded head, fails at the final state, and consecutive states
